@@ -402,5 +402,22 @@ CHECKS["C16"]["quick"] += [H("u_selector::u_selector_n3_unsub_before_last", _W_S
 CHECKS["C16"]["thorough"] += [H("u_selector::u_selector_n4_unsub_before_third", _W_SELU, "n=4, on_unsubscribe before the third", timeout_s=400)]
 CHECKS["C16"]["bounds"] += "; plus on_unsubscribe() delivered between notifications (1 position per harness)"
 
+_W_RMID = "a reader thread's get_state() placed INSIDE a callback of the reduce phase (REAL do_reduce, 2 reducers, 2 middlewares, symbolic state/action/answers); oracle: the reader sees the state the store held before the phase (no action reduced completely yet), never the output of a part of the reducer chain"
+S_RMID = [_ph("s_read_mid_in_reducer1", _W_RMID, "reader inside the second reducer", require_covers=["the reader ran inside the callback"]), _ph("s_read_mid_in_reducer0", _W_RMID, "reader inside the first reducer"), _ph("s_read_mid_in_before_reduce1", _W_RMID, "reader inside the second middleware's before_reduce")]
+CHECKS["C08"]["quick"] += S_RMID[:1]
+CHECKS["C08"]["thorough"] += S_RMID[1:]
+CHECKS["C08"]["bounds"] += "; plus a reader placed inside a reducer / before_reduce callback of the real reduce phase (3 placements)"
+CHECKS["C08"]["outside"] = "reader threads between a phase boundary and the next scheduling point other than those listed; a reader suspended INSIDE get_state (holding the state lock) while the loop publishes; torn reads (excluded by the Mutex)"
+
+_W_HOLD = "REAL loop (phases summarised), k actions queued, stop(); a reader thread is SUSPENDED INSIDE get_state() holding the state lock from the moment the loop has taken one action; a context that waits for that lock lets the reader finish (Mutex::lock model), otherwise the reader finishes when the loop comes back for the next item; oracle: the reader saw a completely reduced state and after stop() get_state() is the state after the last reduced action"
+S_HOLD = [_g("s_read_hold_k1_last", _W_HOLD, "1 action, reader holds the lock while it is published"), _g("s_read_hold_k2_last", _W_HOLD, "2 actions, reader holds the lock while the second is published"), _g("s_read_hold_k2_first", _W_HOLD, "2 actions, reader holds the lock while the first is published")]
+CHECKS["C01"]["quick"] += S_HOLD[:1]
+CHECKS["C01"]["thorough"] += S_HOLD[1:]
+CHECKS["C08"]["quick"] += S_HOLD[1:2]
+CHECKS["C08"]["thorough"] += S_HOLD[2:]
+CHECKS["C01"]["bounds"] += "; plus a reader suspended inside get_state() (holding the state lock) across the publication of one action (1-2 actions, 3 placements)"
+CHECKS["C08"]["bounds"] += "; plus a reader suspended inside get_state() holding the state lock across a publication (K=1)"
+CHECKS["C08"]["outside"] = "reader threads between a phase boundary and the next scheduling point other than those listed; more than one reader suspended at a time; torn reads (excluded by the Mutex)"
+
 HOOK_COMMITS = ['da8b80e', '8cd617e', '39efd23']
 NOT_APPLICABLE = {}
